@@ -123,6 +123,7 @@ func (s *sink) Write(p []byte) (int, error) {
 
 // ---- controllable mock search
 type mock struct {
+	long   bool // info lines as long as those of a deep search
 	log    *logT
 	ctl    chan string
 	ack    chan bool
@@ -144,7 +145,12 @@ func (m *mock) Go(b *board.Board, opts ...search.Option) (Score, move.Move, move
 		switch d {
 		case "info":
 			m.log.add(Ev{Ev: "sInfo"})
-			fmt.Fprintf(o.Output, "info depth 1 score cp 12 nodes 20 time 0 hashfull 0 pv e2e4 e7e5\n")
+			// short lines and lines as long as a deep search prints them (a variation of 60 moves: ~350 bytes)
+			if m.long {
+				fmt.Fprintf(o.Output, "info depth 60 score cp 12 nodes 123456789 time 12345 hashfull 999 pv%s\n", strings.Repeat(" e2e4 e7e5 g1f3 b8c6", 15))
+			} else {
+				fmt.Fprintf(o.Output, "info depth 1 score cp 12 nodes 20 time 0 hashfull 0 pv e2e4 e7e5\n")
+			}
 		case "poll":
 			select {
 			case <-o.Stop:
@@ -555,7 +561,7 @@ func main() {
 		if rng.Intn(3) == 0 {
 			sk.slow = time.Duration(50+rng.Intn(400)) * time.Microsecond
 		}
-		m := &mock{log: lg, ctl: make(chan string), ack: make(chan bool)}
+		m := &mock{log: lg, ctl: make(chan string), ack: make(chan bool), long: rng.Intn(2) == 0}
 		var s uci.Search = m
 		if real {
 			s = search.New(1 << 20)
